@@ -79,11 +79,26 @@ def r18a(ctx):
         for w in a.calls(ty + 'serialize'):
             v = a.arg(w, 0)
             okv = a.root_call(v) is not None and sg(a.root_call(v)[1]) == ty + 'deserialize' and v[0] == 'call'
+            if not okv and v[0] == 'local':
+                # a variable re-read at the end of each round (`let mut h = read()?; while !h.is_bookend() { ..; h = read()? }`)
+                srcs_ = a.flow.sources(v, (w, None))
+                okv = bool(srcs_) and all(se[0] == 'call' and sg(se[1]) == ty + 'deserialize' for (_, _, se) in srcs_) and not a.flow.partial.get(v[1])
             ctx.check(okv, 'R18a', fn, ty.split('::')[-2] + '.asread', a.loc(w), '%s is serialised exactly as deserialised (xorb / file hashes kept)' % ty.split('::')[-2])
     # values given to a footer field: by field stores into the footer, or as a component of one footer literal
     # (`MDBShardFileFooter { f: v, ..Default::default() }`); a value chosen by if/else is expanded into its alternatives
+    self_store = {}
+
     def footer_values(fld):
-        out = [(b_, si_, a.flow.rvalue(st_['r'], 0)) for (b_, si_, st_) in a.stores_to_field(fld)]
+        out = []
+        for (b_, si_, st_) in a.stores_to_field(fld):
+            v_ = a.flow.rvalue(st_['r'], 0)
+            ex_ = [(sb, ssi, se) for (sb, ssi, se) in a.flow.sources(v_, (b_, si_))]
+            if len(ex_) >= 2:
+                # a result variable (`let mut n = 0; if flag { ..; n = len }; footer.f = n`): its alternatives
+                out += [(sb if sb is not None else b_, ssi if sb is not None else si_, se) for (sb, ssi, se) in ex_]
+                self_store.setdefault(fld, []).append(b_)
+            else:
+                out.append((b_, si_, v_))
         if out:
             return out
         for b_ in sorted(a.cfg.reach0):
@@ -110,6 +125,10 @@ def r18a(ctx):
             lens = [(v, b) for (v, b) in vals if v[0] == 'call' and sg(v[1]).endswith('Vec::len')]
             zeros = [(v, b) for (v, b) in vals if v == ('const', 0, 'u64')]
             okc = len(lens) == 1 and len(zeros) == 1 and a.cfg.must_pass(lens[0][1], via_edges=te) and a.cfg.must_pass(zeros[0][1], via_edges=fe)
+            if not okc and len(lens) == 1 and len(zeros) == 1 and a.cfg.must_pass(lens[0][1], via_edges=te) and self_store.get(cnt_field):
+                # zero is the initial value of a result variable, overwritten with the length on every path through the flag
+                te2 = [(x, y) for (x, y) in te if a.cfg.dominates(zeros[0][1], x) and lens[0][1] in a.cfg.reach([y])]
+                okc = bool(te2) and a.cfg.must_pass(lens[0][1], via_edges=te2) and all(stb not in a.cfg.reach([y for (_, y) in te2], cut_blocks=[lens[0][1]]) for stb in self_store[cnt_field])
             if okc:
                 vec = lens[0][0][2][0]
                 ws = [w for w in wr64 if a.root_call(a.arg(w, 1)) is not None and a.root_call(vec) is not None and a.root_call(a.arg(w, 1))[3] == a.root_call(vec)[3]]
@@ -254,6 +273,21 @@ def r18d(ctx):
                 ctx.check(not other, 'R18d', c['qpath'], 'by-path loaders', ac.loc(other[0]) if other else '-', 'shards given by path are loaded through load_all_valid only',
                           'a shard given by path is loaded with %s, which does not apply the expiry filter of load_all_valid: an expired keyed shard is registered and answers dedup queries'
                           % (sg(ac.term(other[0])['fn']).split('::')[-1] if other else ''))
+        if src is None:
+            # a local list filled by push / extend: every filler must come from an allowed source
+            base = v
+            while base[0] in ('index', 'slice', 'cast') or (base[0] == 'call' and sg(base[1]).split('::')[-1] in ('deref', 'as_slice', 'as_ref') and len(base[2]) == 1):
+                base = base[1] if base[0] != 'call' else base[2][0]
+            if base[0] == 'call' and sg(base[1]).split('::')[-1] in ('new', 'with_capacity') and 'Vec' in sg(base[1]):
+                fills = [c for c in a.calls() if sg(a.term(c).get('fn', '')).split('::')[-1] in ('push', 'extend', 'append', 'extend_from_slice', 'insert')
+                         and a.term(c)['args'] and a.root_call(a.arg(c, 0)) is not None and a.root_call(a.arg(c, 0))[3] == base[3]]
+                def allowed_value(e, site):
+                    if any(z[0] == 'call' and any(sg(z[1]).endswith(x) for x in ALLOWED if x != 'MDBShardFile::load_from_file') for z in flow.subtrees(e)):
+                        return True
+                    return any(z2[0] == 'call' and any(sg(z2[1]).endswith(x) for x in ALLOWED if x != 'MDBShardFile::load_from_file')
+                               for (_, _, se) in a.flow.sources(e, (site, None)) for z2 in flow.subtrees(se))
+                if fills and all(allowed_value(a.arg(c, len(a.term(c)['args']) - 1), c) for c in fills):
+                    src = 'a local list filled only from validity-filtered loads'
         ctx.check(src is not None, 'R18d', b['qpath'], 'source', a.loc(bi), 'shards registered here come from %s' % src, 'shards are registered from an unfiltered source: %s' % flow.show(v)[:80])
     # load_from_file (used by flush) loads a file just written by this process: fresh, no expiry
 
